@@ -295,3 +295,62 @@ def subm_gate_session(rng):
             chunks.append(rcpt(rng, rng.choice(['ok', 'remote', 'remote', 'no'])))
         chunks.append(b'DATA\r\n'); chunks.append(rng.choice([b'Subject: t\r\n\r\nbody\r\n.\r\n', b'From: <x@example.net>\r\nDate: d\r\n\r\nbody\r\n.\r\n']))
     return cfg, chunks
+
+
+def data_end_session(rng):
+    """C05 at the level of the DATA command: where does the message end?  One or two transactions whose payload is full of
+    things that look like the end marker but are not: lines that start with a dot and go on (with a NUL, with text), dots
+    in the tail of an over-long line (the part behind the first buffer-full), dots right behind a stray CR or a bare LF,
+    each directly behind lines of 0, 1 or 2 octets (what a reader that looks at a stale line would see), followed by lines
+    that would be commands if the server had left data mode too early."""
+    chunks = [rng.choice([b'EHLO c.example.net\r\n', b'EHLO c.example.net\r\n', b'HELO c.example.net\r\n'])]
+    for _ in range(rng.choice([1, 1, 2])):
+        chunks += [mail(rng, 'ok'), rcpt(rng, 'ok'), b'DATA\r\n']
+        lines = []
+        if rng.random() < 0.6:
+            lines += [b'Subject: t'] + ([b''] if rng.random() < 0.7 else [])
+        wellformed = rng.random() < 0.45
+        for _ in range(rng.choice([1, 2, 3, 5])):
+            lines.append(rng.choice([b'b', b'b', b'', b'..', b'ab', b'.x', b'x']))           # what stays behind in linein
+            if wellformed:
+                lines.append(rng.choice([b'.\x00', b'.\x00evil', b'a\x00b', b'.\x00.', b'..', b'. ', b'.\t', b'.' * 3, b'.x' + b'y' * 996, b'.' + b'y' * 998]))
+            else:
+                k = rng.choice([999, 1000, 1001, 1001, 1002, 1003, 2002, 2003, 3004])
+                lines.append(rng.choice([b'X' * k + b'.', b'X' * k + b'.', b'.' + b'X' * k, b'X' * k + b'.\x00', b'X' * (k - 1) + b'\r.', b'.' * k,
+                                         b'.\rNOOP', b'.x\ry', b'.\r', b'a\r.', b'.\nNOOP', b'x\n.', b'.\x00\rz', b'X' * k + b'\r\r.']))
+            if rng.random() < 0.7:
+                lines.append(rng.choice([b'NOOP', b'RSET', b'MAIL FROM:<x@example.net>', b'QUIT', b'NOOP', b'b']))
+        payload = b''.join(l + b'\r\n' for l in lines) + b'.\r\n'
+        r = rng.random()
+        if r < 0.5 or wellformed:
+            chunks.append(payload)
+        else:
+            # cut the payload (never inside the closing dot line), also directly behind a CR
+            cuts = sorted(set(rng.randrange(1, len(payload) - 3) for _ in range(rng.choice([1, 2, 4]))))
+            last = 0
+            for c in cuts + [len(payload)]:
+                chunks.append(payload[last:c]); last = c
+        chunks.append(rng.choice([b'NOOP\r\n', b'RSET\r\n', b'NOOP\r\n']))
+    chunks.append(b'QUIT\r\n')
+    return chunks
+
+
+def bounce_session(rng):
+    """C08, last clause: a bounce (empty sender) never gets a second recipient - whoever the client is (authenticated by AUTH,
+    relay client by IP, neither), whatever came before (an ordinary transaction with several recipients, RSET, a refused
+    recipient in between) and however the recipients are mixed (local, remote)."""
+    chunks = [b'EHLO c.example.net\r\n']
+    if rng.random() < 0.7:
+        chunks.append(auth_line(rng, rng.choice(['good', 'good', 'good', 'wrongpw'])))
+    for _ in range(rng.choice([1, 2, 2, 3])):
+        bounce = rng.random() < 0.75
+        chunks.append(mail(rng, 'bounce' if bounce else 'ok'))
+        for _ in range(rng.choice([2, 2, 3, 4])):
+            chunks.append(rcpt(rng, rng.choice(['ok', 'ok', 'remote', 'no'])))
+            if rng.random() < 0.1: chunks.append(b'NOOP\r\n')
+        if rng.random() < 0.8:
+            chunks.append(b'DATA\r\n'); chunks.append(b'Subject: t\r\n\r\nbody\r\n.\r\n')
+        else:
+            chunks.append(b'RSET\r\n')
+    chunks.append(b'QUIT\r\n')
+    return chunks
